@@ -12,6 +12,12 @@ from vf.values import trees, same, show
 import itertools
 
 PID = "C01"
+import json as _json
+import os as _os
+try:
+    GOLDEN = _json.load(open(_os.path.join(_os.path.dirname(_os.path.dirname(_os.path.abspath(__file__))), "golden_c01.json")))
+except FileNotFoundError:
+    GOLDEN = {}
 _FRESH = itertools.count(1001)       # numbers no earlier unit of this process has put on the wire
 POSITIONS = ["arg", "kwarg", "result", "batch", "stream", "attrset", "attrget"]
 
@@ -135,6 +141,11 @@ def run_config(unit):
                     inner = get_result(v[0])
                     if inner[0] == "ok" and not same(inner[1], m[1][0]):
                         V("mapping-not-elementwise|%s|%s" % (type(v).__name__, type(v[0]).__name__), "M(%s)=%s but its element alone maps to %s" % (show(v), show(m[1]), show(inner[1])), label)
+            # --- the mapping of the extended atoms is the pinned tree's (golden table, vf/golden_c01.json): "fixed" also means it does not drift
+            if not core and label in GOLDEN.get(sername, {}) and not bytes_repr:
+                now = show(m, 200) if m[0] == "ok" else "exc:" + m[1].split(":")[0]
+                if now != GOLDEN[sername][label]:
+                    V("mapping-differs-from-pinned-tree|%s" % label, "%s arrives as %s; the pinned tree delivers %s" % (show(v), now, GOLDEN[sername][label]), label)
             key = "%s:%s:%s" % (okclass, m[0], type(m[1]).__name__ if m[0] == "ok" else "exc")
             st.outcomes[key] = st.outcomes.get(key, 0) + 1
             st.states.add(label)
